@@ -23,11 +23,6 @@ NOTES = ('Exit codes of ./check: 0 = all obligations of the property\'s cone dis
          'Defects of the pinned tree repaired by fix: commits are listed in known_findings.json.')
 _NOT_YET = 'verification unit not built yet in this round (see DESIGN.md section 8 for the build order)'
 NOT_APPLICABLE = {
-    'C09': ('not decided in this round (the technique could reach it, the proof was not built): it needs (i) the character-level scanner canonize_subform against a '
-            'specification function, (ii) injectivity of the fully parenthesised rendering and (iii) a tree-level alpha-equivalence lemma. What IS proved elsewhere: '
-            'unit mark shows that every key of the duplicate table is a wild-card key or the canonical text of a preprocessed tree with at most one variable and that '
-            'counters are >= 1; the soundness direction ("equal canonical forms => equal up to renaming") is the ASSUMED axiom_key_sound of C04. The occurrence-count '
-            'clause ("counter n => at least n+1 occurrences") is not proved.'),
     'C16': 'byte-level behaviour of zip / std::fs / Bdd::write_as_string: straight-line glue over foreign crates through io::Write trait machinery that Verus cannot type; a contract would have to assume a model of zip archives that *is* the property (DESIGN.md section 6)',
     'C17': ('the observable is process-level (argv parsing by clap, stdout text, exit status, files and zip archives written and read back); the library half '
             '(load_formulae, analyse_formulae) is string / file glue over std::fs, println! and the foreign model parsers, none of which has a Verus specification; '
@@ -38,7 +33,7 @@ for _p in ['C%02d' % i for i in range(1, 21)]:
 
 PROPS['C05'] = {
     'units': ['tree', 'lex', 'front'],
-    'functions': {'front': ['parse_hctl_formula', 'parse_extended_formula']},
+    'functions': {'canon': [], 'front': ['parse_hctl_formula', 'parse_extended_formula']},
     'level_text': ('Proof, for all character sequences and all token sequences of any length, that (i) the tokenizer returns exactly the token '
                    'sequence of the declarative token language of spec/lex.rs (maximal runs of name characters classified afterwards, whitespace '
                    'anywhere, long and short operator spellings, wild-cards / domains only in extended mode) or an error, and (ii) the parser accepts '
@@ -64,7 +59,7 @@ _OPS_TRUSTED = [
 
 PROPS['C13'] = {
     'units': ['ops'],
-    'functions': {'ops': ['eval_ew', 'eval_aw', 'eval_au', 'eval_eu_saturated', 'eval_neg', 'eval_ax', 'eval_ex', 'eval_eg']},
+    'functions': {'canon': [], 'ops': ['eval_ew', 'eval_aw', 'eval_au', 'eval_eu_saturated', 'eval_neg', 'eval_ax', 'eval_ex', 'eval_eg']},
     'level_text': ('Proof that eval_ew / eval_aw return exactly E[phi U psi] or EG phi, resp. not E[not psi U (not phi and not psi)] '
                    '(the equations of the statement, over least/greatest fixed points of an arbitrary coloured transition system), for every '
                    'graph, every argument set and every number of loop iterations; psi-states satisfy both (lemma).'),
@@ -77,7 +72,7 @@ PROPS['C13'] = {
 
 _EVAL_TRUSTED = _OPS_TRUSTED + [
     'compute_attractor_states (driver of the foreign ITGR + Xie-Beerel algorithms of biodivine-algo-bdd-scc): ASSUMED to return, inside the given universe, exactly the states satisfying !{x}: AG EF {x}',
-    'get_canonical_and_renaming: in unit eval only its abstract contract is used (result = canon_str / canon_map of the text) together with two ASSUMED facts about canonical forms of rendered trees (axiom_canon_wild, axiom_canon_not_wild in spec/evalctx.rs): a wild-card proposition with a plain label is its own canonical form, and nothing else has a canonical form of that shape',
+    'get_canonical_and_renaming is PROVED (unit canon) to return the result of the scanner specification `scan` (spec/canon.rs); the two facts about canonical forms of wild-card propositions (K1a / K1b) are proved from it; TRUSTED: decimal rendering of i32 by format! is an uninterpreted function dec_digits_int, names of network variables contain none of ( ) { } % (axiom_prop_names); termination of the exec recursion of canonize_subform is not proved',
     'prelude/std_model.rs: String keys obey the hash-map key model, a String / BTreeMap is determined by its contents, a &str key denotes the String with the same characters, HashMap::get_mut; R-mapindex (map[&k] = *map.get(&k).unwrap()), R-refiter (for x in &m = for x in m.iter()), R-tupleclone, R-tostr (Display of HctlTreeNode prints formula_str)',
     'cache soundness (C04) is proved modulo (a) the ASSUMED semantic soundness of canonical keys axiom_key_sound (= the only-if direction of C09), (b) the contract of mark_duplicates (keys of formulae with at most one variable name, counters >= 1) PROVED in unit mark over a model of BinaryHeap as a bag whose pop returns some element (prelude/std_model.rs) and with the Ord / PartialEq impls of NodeWithDomains as trusted stand-ins (only the order of traversal depends on them), batches with fewer than 2^31 nodes, (c) wild-card counters that cover the occurrences still to be evaluated (budget_pre), and (d) the two KNOWN FINDINGS D5 / D8 (known_findings.json): the assertions hit_universe_ok / hit_slot_ok in the cache-hit path are false for the current repository code',
     'names: HCTL variable names have a slot in the graph (byte length - 1 < number of extra variable sets), nested quantifiers use distinct slots (preprocessing names them x, xx, ... by depth), propositions are network variables, domain sets do not depend on the auxiliary variables, context sets lie inside the unit set',
@@ -89,7 +84,7 @@ _EXT_API = ['collect_unique_wild_cards_recursive', 'collect_unique_wild_cards', 
             '_model_check_extended_formula_dirty', 'model_check_extended_formula_dirty',
             '_model_check_multiple_extended_formulae', 'model_check_multiple_extended_formulae', '_model_check_extended_formula', 'model_check_extended_formula']
 PROPS['C01'] = {
-    'units': ['ops', 'eval', 'api', 'front', 'lex', 'tree', 'mark'],
+    'units': ['ops', 'eval', 'api', 'front', 'lex', 'tree', 'mark', 'canon'],
     'level_text': ('Proof that the recursive evaluator eval_node returns, for every graph, every well-formed tree over all operators and every '
                    'context, a set that agrees with the HCTL semantics `sem` (spec/sem.rs, written from the statement: self-loops on states '
                    'without successors, least/greatest fixed points, bind/jump/exists/forall) inside the graph\'s unit set; every operator '
@@ -101,8 +96,8 @@ PROPS['C01'] = {
     'trusted': _EVAL_TRUSTED, 'assumptions': _EVAL_ASSUME,
 }
 PROPS['C02'] = {
-    'units': ['ops', 'eval', 'api', 'front', 'lex', 'tree', 'mark'],
-    'functions': {'api': _EXT_API, 'front': ['parse_and_minimize_extended_formula', 'parse_extended_formula'], 'lex': [], 'tree': [], 'mark': [], 'ops': ['compute_valid_domain_for_var', 'eval_bind', 'eval_exists', 'eval_neg', 'eval_jump', 'create_equalizer', 'create_comparator_var_state',
+    'units': ['ops', 'eval', 'api', 'front', 'lex', 'tree', 'mark', 'canon'],
+    'functions': {'canon': [], 'api': _EXT_API, 'front': ['parse_and_minimize_extended_formula', 'parse_extended_formula'], 'lex': [], 'tree': [], 'mark': [], 'ops': ['compute_valid_domain_for_var', 'eval_bind', 'eval_exists', 'eval_neg', 'eval_jump', 'create_equalizer', 'create_comparator_var_state',
                           'project_out_hctl_var', 'project_out_bn_vars'],
                   'eval': ['eval_node', 'eval_hybrid_quantifier', 'restrict_stg_unit_bdd']},
     'level_text': ('Proof that wild-card propositions evaluate to the supplied set and that bind/exists/forall with a domain have the documented '
@@ -120,7 +115,7 @@ PROPS['C02'] = {
     'trusted': _EVAL_TRUSTED, 'assumptions': _EVAL_ASSUME,
 }
 PROPS['C03'] = {
-    'units': ['ops', 'eval', 'api', 'front', 'lex', 'tree', 'mark'],
+    'units': ['ops', 'eval', 'api', 'front', 'lex', 'tree', 'mark', 'canon'],
     'level_text': ('Proof that every set returned by eval_node is a subset of the base graph\'s unit set (second half of the invariant `ok`), '
                    'for all graphs with constrained parameters and all formulae, and that every atomic evaluation (propositions, variables, constants) '
                    'is intersected with the unit set. Independence of closed results from the auxiliary variables is not yet a proved lemma.'),
@@ -129,8 +124,8 @@ PROPS['C03'] = {
     'trusted': _EVAL_TRUSTED, 'assumptions': _EVAL_ASSUME,
 }
 PROPS['C12'] = {
-    'units': ['ops', 'eval'],
-    'functions': {'ops': [], 'eval': ['eval_node', 'is_attractor_pattern', 'is_fixed_point_pattern', 'compute_steady_states']},
+    'units': ['ops', 'eval', 'canon'],
+    'functions': {'canon': [], 'ops': [], 'eval': ['eval_node', 'is_attractor_pattern', 'is_fixed_point_pattern', 'compute_steady_states']},
     'level_text': ('Proof that the two recognisers accept exactly the patterns (!{x}: AG EF {x}) and (!{x}: AX {x}) (an iff, so near misses are rejected), '
                    'that the steady-state shortcut equals the semantics of !{x}: AX {x} inside every (restricted) unit set and for every variable name, '
                    'and that both early returns of eval_node satisfy its general postcondition. The attractor half relies on the ASSUMED contract of the foreign attractor algorithm.'),
@@ -139,8 +134,8 @@ PROPS['C12'] = {
     'trusted': _EVAL_TRUSTED, 'assumptions': _EVAL_ASSUME,
 }
 PROPS['C18'] = {
-    'units': ['ops', 'eval', 'api', 'front', 'lex', 'tree', 'mark'],
-    'functions': {'mark': [], 'ops': ['eval_ex', 'eval_ax', 'eval_eg', 'eval_af', 'eval_au', 'eval_ew', 'eval_neg'], 'eval': ['eval_node', 'compute_steady_states', 'is_fixed_point_pattern', 'is_attractor_pattern'],
+    'units': ['ops', 'eval', 'api', 'front', 'lex', 'tree', 'mark', 'canon'],
+    'functions': {'canon': [], 'mark': [], 'ops': ['eval_ex', 'eval_ax', 'eval_eg', 'eval_af', 'eval_au', 'eval_ew', 'eval_neg'], 'eval': ['eval_node', 'compute_steady_states', 'is_fixed_point_pattern', 'is_attractor_pattern'],
                   'api': ['model_check_formula_unsafe_ex', 'parse_and_validate', '_model_check_formula_dirty', 'model_check_formula_dirty', '_model_check_multiple_formulae_dirty'],
                   'front': [], 'lex': [], 'tree': []},
     'level_text': ('Proof that model_check_formula_unsafe_ex satisfies the very specification proved for the safe entry point model_check_formula_dirty '
@@ -156,7 +151,7 @@ UNIT_TIMEOUT['eval'] = 1200
 
 PROPS['C11'] = {
     'units': ['ops'],
-    'functions': {'ops': ['eval_neg', 'eval_ex', 'eval_ax', 'eval_eg', 'eval_af', 'eval_eu_saturated', 'eval_ef_saturated', 'eval_ag', 'eval_au', 'eval_ew', 'eval_aw']},
+    'functions': {'canon': [], 'ops': ['eval_neg', 'eval_ex', 'eval_ax', 'eval_eg', 'eval_af', 'eval_eu_saturated', 'eval_ef_saturated', 'eval_ag', 'eval_au', 'eval_ew', 'eval_aw']},
     'level_text': ('Proof, on every graph and for arbitrary argument sets, that each temporal operator function returns exactly its fixed-point '
                    'specification (EU/EF least, EG greatest, AU least fixed point; AX/AF/AG by duality; EX with explicit self-loops), plus proved '
                    'lemmas for the laws named in the statement: unfolding of EF / EG / EU / AU, monotonicity of EX / EU / EG / AU / AX in every '
@@ -180,7 +175,7 @@ PROPS['C06'] = {
 
 PROPS['C07'] = {
     'units': ['front', 'tree', 'lex'],
-    'functions': {'front': ['validate_and_rename_recursive', 'validate_props_and_rename_vars', 'parse_and_minimize_hctl_formula', 'parse_and_minimize_extended_formula'],
+    'functions': {'canon': [], 'front': ['validate_and_rename_recursive', 'validate_props_and_rename_vars', 'parse_and_minimize_hctl_formula', 'parse_and_minimize_extended_formula'],
                   'tree': ['mk_hybrid', 'mk_unary', 'mk_binary', 'mk_variable', 'mk_atom'], 'lex': []},
     'level_text': ('Proof that validate_and_rename_recursive / validate_props_and_rename_vars return Ok exactly when the tree is well scoped (every '
                    'variable occurrence, jump targets included, inside a quantifier for it; no re-quantification inside its own scope; every proposition '
@@ -194,8 +189,8 @@ PROPS['C07'] = {
 }
 
 PROPS['C04'] = {
-    'units': ['ops', 'eval', 'api', 'front', 'lex', 'tree', 'mark'],
-    'functions': {'mark': None, 'ops': ['substitute_hctl_var', 'create_comparator_two_vars', 'create_equalizer', 'project_out_hctl_var'], 'eval': ['eval_node'],
+    'units': ['ops', 'eval', 'api', 'front', 'lex', 'tree', 'mark', 'canon'],
+    'functions': {'canon': None, 'mark': None, 'ops': ['substitute_hctl_var', 'create_comparator_two_vars', 'create_equalizer', 'project_out_hctl_var'], 'eval': ['eval_node'],
                   'api': ['_model_check_multiple_trees_dirty', 'model_check_multiple_trees_dirty', '_model_check_tree_dirty', 'model_check_tree_dirty',
                           '_model_check_multiple_formulae_dirty', 'model_check_multiple_formulae_dirty', '_model_check_multiple_trees', 'model_check_multiple_trees',
                           '_model_check_multiple_formulae', 'model_check_multiple_formulae', 'parse_and_validate'],
@@ -211,7 +206,7 @@ PROPS['C04'] = {
 }
 
 PROPS['C14'] = {
-    'units': ['api', 'front', 'lex', 'tree', 'eval', 'ops', 'mark'],
+    'units': ['api', 'front', 'lex', 'tree', 'eval', 'ops', 'mark', 'canon'],
     'level_text': ('Partial, at proof level: (i) panic-freedom: every function under contract (tokenizer, parser, renamer, all operators, eval_node, '
                    'the tree-based entry points, check_hctl_var_support) is verified with Verus\' built-in obligations for unwrap / unreachable! / indexing / '
                    'integer overflow, under the stated preconditions; (ii) "error exactly when": parse_and_minimize_* return Err exactly when the text is '
@@ -228,8 +223,8 @@ PROPS['C14'] = {
 UNIT_TIMEOUT['api'] = 600
 
 PROPS['C15'] = {
-    'units': ['api', 'eval', 'ops', 'front', 'lex', 'tree', 'mark'],
-    'functions': {'mark': [], 'api': ['sanitize_colored_vertices', '_model_check_multiple_trees', 'model_check_multiple_trees', '_model_check_tree', 'model_check_tree',
+    'units': ['api', 'eval', 'ops', 'front', 'lex', 'tree', 'mark', 'canon'],
+    'functions': {'canon': [], 'mark': [], 'api': ['sanitize_colored_vertices', '_model_check_multiple_trees', 'model_check_multiple_trees', '_model_check_tree', 'model_check_tree',
                           '_model_check_multiple_formulae', 'model_check_multiple_formulae', '_model_check_formula', 'model_check_formula',
                           '_model_check_multiple_trees_dirty', '_model_check_multiple_formulae_dirty', 'parse_and_validate'],
                   'eval': ['eval_node'], 'ops': [], 'front': [], 'lex': [], 'tree': []},
@@ -244,8 +239,8 @@ PROPS['C15'] = {
 }
 
 PROPS['C08'] = {
-    'units': ['api', 'front', 'lex', 'tree', 'eval', 'ops', 'mark'],
-    'functions': {'mark': [], 'eval': [], 'ops': [], 'api': ['parse_and_validate', '_model_check_multiple_formulae_dirty', 'model_check_multiple_formulae_dirty', '_model_check_formula_dirty', 'model_check_formula_dirty',
+    'units': ['api', 'front', 'lex', 'tree', 'eval', 'ops', 'mark', 'canon'],
+    'functions': {'canon': [], 'mark': [], 'eval': [], 'ops': [], 'api': ['parse_and_validate', '_model_check_multiple_formulae_dirty', 'model_check_multiple_formulae_dirty', '_model_check_formula_dirty', 'model_check_formula_dirty',
                           '_model_check_multiple_formulae', 'model_check_multiple_formulae', '_model_check_formula', 'model_check_formula'],
                   'front': None, 'lex': None, 'tree': None},
     'level_text': ('Proof, over the declarative specifications that the tokenizer, the parser and the renamer are proved to implement for every input, that each '
@@ -262,8 +257,8 @@ PROPS['C08'] = {
     'trusted': PROPS['C05']['trusted'] + PROPS['C07']['trusted'],
 }
 PROPS['C10'] = {
-    'units': ['api', 'eval', 'ops', 'front', 'lex', 'tree', 'mark'],
-    'functions': {'mark': None, 'front': [], 'lex': None, 'tree': [], 'api': _EXT_API, 'eval': ['eval_node', 'eval_hybrid_quantifier', 'restrict_stg_unit_bdd'], 'ops': None},
+    'units': ['api', 'eval', 'ops', 'front', 'lex', 'tree', 'mark', 'canon'],
+    'functions': {'canon': [], 'mark': None, 'front': [], 'lex': None, 'tree': [], 'api': _EXT_API, 'eval': ['eval_node', 'eval_hybrid_quantifier', 'restrict_stg_unit_bdd'], 'ops': None},
     'level_text': ('Proof (lemma_replaced, induction over the tree with the twelve operator lemmas) that replacing any number of sub-formulae by wild-card propositions '
                    'whose context sets agree with the semantics of the replaced sub-formulae inside the unit set leaves the semantics of every surrounding formula '
                    'unchanged inside the unit set, for every graph; proof on the code that eval_node serves a wild-card terminal by the supplied set (cache invariant '
@@ -279,8 +274,8 @@ PROPS['C10'] = {
     'trusted': _EVAL_TRUSTED, 'assumptions': _EVAL_ASSUME,
 }
 PROPS['C20'] = {
-    'units': ['api', 'eval', 'ops', 'front', 'lex', 'tree', 'mark'],
-    'functions': {'mark': [], 'front': [], 'lex': [], 'tree': [], 'api': ['_model_check_multiple_trees_dirty', '_model_check_multiple_formulae_dirty', 'parse_and_validate', 'sanitize_colored_vertices'], 'eval': None, 'ops': None},
+    'units': ['api', 'eval', 'ops', 'front', 'lex', 'tree', 'mark', 'canon'],
+    'functions': {'canon': [], 'mark': [], 'front': [], 'lex': [], 'tree': [], 'api': ['_model_check_multiple_trees_dirty', '_model_check_multiple_formulae_dirty', 'parse_and_validate', 'sanitize_colored_vertices'], 'eval': None, 'ops': None},
     'level_text': ('Proof (lemma_colour_local / lemma_c20, induction over the tree; least and greatest fixed points by transporting closed / dense sets between the two '
                    'systems) that the slice of the HCTL semantics at a colour c is determined by the transitions, the self-loops and the validity of colour c alone: '
                    'any two transition systems that agree at c -- a parametrised network and its instantiation by c, or the same network with other colours added or '
@@ -313,4 +308,23 @@ PROPS['C19'] = {
                 'specified over a ghost parameter table (add_parameter: precondition "the name is not a variable name", returns Ok exactly when the name is not yet a parameter)',
                 'R-unwrapelse (Option::unwrap_or_else with a closure -> match), R-hoist (operands of one expression bound by let in evaluation order)'],
     'assumptions': ['every parameter id occurring in an update function is a parameter of the network (params_valid)'],
+}
+
+PROPS['C09'] = {
+    'units': ['canon', 'mark'],
+    'functions': {'canon': None, 'mark': None},
+    'level_text': ('PARTIAL. Proof that canonize_subform / get_canonical / get_canonical_and_renaming return exactly the result of the scanner specification `scan` '
+                   '(single pass: quantifiers bind the next name var<n>, an occurrence is replaced by the name bound to its variable, a free variable gets the next name at its first '
+                   'occurrence, everything else is copied; a closing parenthesis ends a level), for every text and every initial renaming, without integer overflow for texts shorter '
+                   'than 2^31 characters; lemmas over that specification: text without parentheses and braces is its own canonical form with an empty renaming (hence a wild-card '
+                   'proposition is canonical and variable-free, lemma_canon_wild) and nothing but a wild-card proposition has a canonical form of that shape (lemma_canon_not_wild). '
+                   'Proof that every key reported by mark_duplicates_canonized_* is such a wild-card key or the canonical text of a sub-formula with at most one variable, with counter >= 1.'),
+    'level_note': ('NOT proved: "same canonical form exactly when equal up to renaming" (the soundness direction is the ASSUMED axiom_key_sound of C04; it needs injectivity of the fully '
+                   'parenthesised rendering and a tree-level alpha-equivalence argument), injectivity of the renaming, idempotence of canonisation, and the occurrence-count clause '
+                   '("counter n => at least n+1 occurrences with identical domains"). Termination of the exec recursion of canonize_subform is not proved (Verus cannot name the entry value of a '
+                   'by-value mut parameter in a loop invariant). Trusted: Peekable<Chars> model, String / HashMap model, dec_digits_int, R-orguard / R-byref / R-noprint / R-peekable / R-fmt-val.'),
+    'explanation': 'contracts/canon.ctr, spec/canon.rs (scan, lemma_scan_fuel, lemma_scan_shrinks), spec/evalctx.rs (lemma_scan_inert, lemma_scan_prefix, lemma_canon_wild, lemma_canon_not_wild), unit mark.',
+    'trusted': ['prelude/lex_model.rs (Peekable<Chars> as the ghost sequence of remaining characters), prelude/std_model.rs (String keys, &str borrow)',
+                'R-orguard (or-pattern with guard -> equality tests && guard), R-byref (for x in it.by_ref() -> while let Some(x) = it.next()), R-noprint (println! removed from the never-taken branch)',
+                'format!("{}", i32) modelled by the uninterpreted dec_digits_int'],
 }
